@@ -315,6 +315,12 @@ func oasScalarPool(f *Field, rng *rand.Rand) []oasScalarElem {
 			add(*r.StrConst + "0")
 			add(" " + *r.StrConst)
 		}
+		if r.Pattern != nil {
+			// strings built from the pattern's syntax tree (matching samples and near misses)
+			for _, x := range RegexSamples(*r.Pattern) {
+				add(x)
+			}
+		}
 		keys := make([]string, 0, len(set))
 		for k := range set {
 			keys = append(keys, k)
